@@ -584,7 +584,7 @@ func (d *Decoder) LoadParityData() error {
 				return errors.New("recovery packet byte count mismatch")
 			}
 			if int(exponent) >= len(parityShards) {
-				parityShards = append(parityShards, make([][]byte, int(exponent+1)-len(parityShards))...)
+				parityShards = append(parityShards, make([][]byte, int(exponent)+1-len(parityShards))...)
 			}
 			parityShards[exponent] = packet.data
 		}
